@@ -54,6 +54,7 @@ func calendarInstant(t *simrt.Tape) time.Time {
 type createdFile struct {
 	path string
 	now  time.Time // the creating task's last clock reading
+	wk   string    // the week-end file when the counter file was created
 }
 
 // scenarioC09 (counter side): a rotating process over a simulated calendar.
@@ -129,7 +130,8 @@ func scenarioC09x(c *hlib.RunCtx) *hlib.Violation {
 		for ; seenCalls < len(s.CallLog); seenCalls++ {
 			fc := s.CallLog[seenCalls]
 			if fc.Op == "open-create" && fc.Mutating && fc.Err == nil && strings.HasSuffix(fc.Path, ".v1.count") {
-				created = append(created, createdFile{path: filepath.Join(c.Dir, fc.Path), now: fc.Task.LastNow})
+				wkThen, _ := os.ReadFile(wkPath)
+				created = append(created, createdFile{path: filepath.Join(c.Dir, fc.Path), now: fc.Task.LastNow, wk: string(wkThen)})
 			}
 		}
 		w.refreshViews()
@@ -178,6 +180,7 @@ func scenarioC09x(c *hlib.RunCtx) *hlib.Violation {
 	}
 
 	phases := 1 + t.Draw(3)
+	wkChanged := false
 	var jumps []string
 	for ph := 0; ph < phases && w.viol == nil; ph++ {
 		if ph == 0 {
@@ -185,6 +188,16 @@ func scenarioC09x(c *hlib.RunCtx) *hlib.Violation {
 			if p2 != nil {
 				s.Spawn(p2.p, "open2", func() { enterAdd(); p2.f.VerifRotate(); leaveAdd(); simrt.Yield("op"); w.add(p2, p2.counters[0], 1) })
 			}
+		}
+		if ph > 0 && wkKind <= 1 && t.Bool(1, 4) {
+			// between two phases the user changes the week-end day, or the file goes away
+			if t.Bool(1, 2) {
+				os.WriteFile(wkPath, []byte(fmt.Sprintf("%d\n", t.Draw(7))), 0666)
+			} else {
+				os.Remove(wkPath)
+			}
+			wkChanged = true
+			s.Probe("weekends-changed")
 		}
 		nadd := 1 + t.Draw(2)
 		for i := 0; i < nadd; i++ {
@@ -306,6 +319,13 @@ func scenarioC09x(c *hlib.RunCtx) *hlib.Violation {
 		case 1:
 			if len(wkNow) >= 1 && wkNow[0] >= '0' && wkNow[0] <= '6' {
 				cfgDay = int(wkNow[0] - '0')
+			}
+		}
+		if wkChanged {
+			// the setting that counts is the one in force when the file was created
+			cfgDay = -1
+			if len(cf.wk) == 2 && cf.wk[0] >= '0' && cf.wk[0] <= '6' && cf.wk[1] == '\n' {
+				cfgDay = int(cf.wk[0] - '0')
 			}
 		}
 		if cfgDay >= 0 {
